@@ -1,6 +1,7 @@
 """C02 — conventional files parse to exactly the sections, keys and values written."""
 import vlib, grammar, gens, gramlib
 from checklib import Scenario
+from vlib import enc
 
 RULE = ("files generated from the conventional grammar (Grammar.v / DESIGN.md 5.1) as ASTs aimed at the case splits of the "
         "proof (each delimiter class; key ending at blank vs delimiter; value empty / plain / quoted; trailing comment; "
@@ -35,6 +36,16 @@ def gen(rng, tier):
                      tags=("class" + grammar.cls(dl),))
         s.expected = e
         out.append(s)
+    # big files: hundreds of sections (many of them re-opened further down), thousands of keys — compared with the model
+    for nsec, nkeys in (((80, 600), (400, 2500)) if tier == "quick" else ((80, 600), (400, 2500), (2000, 20000))):
+        lines = [b"top=0", b"top2 = x"]
+        for i in range(nkeys):
+            if i % (nkeys // nsec) == 0 or rng.random() < 0.02:
+                lines.append(b"[S%d]" % rng.randrange(nsec) if rng.random() < 0.3 else b"[S%d]" % (i * nsec // nkeys))
+            lines.append(b"key%d=%d" % (rng.randrange(nkeys // 2), i))
+            if i % 50 == 0: lines.append(b"  continued %d" % i)
+        out.append(Scenario([gens.parse_cmd(0, b"/g/big.conf", b"\n".join(lines) + b"\n", b"=", b"#"), "dump 0", "groups 0", "keys 0 " + enc(b"S3"), "keys 0 -"],
+                            [True, True, True, True, True], tags=("big",)))
     return out
 
 def oracle(s, ilines):
